@@ -2,7 +2,7 @@
   Evaluation of protocol requests against the model (DESIGN.md A.3).
 -/
 import OptreeModel.Model.Sexp
-import OptreeModel.Model.Serial
+import OptreeModel.Model.Ops
 import OptreeModel.Generated.Hash
 
 namespace Optree
@@ -194,6 +194,42 @@ end
 
 /-! ### requests -/
 
+/-- the mapped-function menu (mirrored in harness/run_impl.py `user_fn`) -/
+def firstObj : List Arg → PyObj
+  | [] => .none
+  | .obj x :: _ => x
+  | _ :: rest => firstObj rest
+
+def fresh (i : Nat) : PyObj := .leaf 0 (500000 + i)
+
+def fnMenu : Nat → Option UserFn
+  | 0 => some fun _ a => .ok (firstObj a)
+  | 1 => some fun i _ => .ok (fresh i)
+  | 2 => some fun i a => .ok (.tuple [firstObj a, fresh i])
+  | 3 => some fun i _ => if i == 2 then .error (.user 2) else .ok (fresh i)
+  | 4 => some fun _ _ => .ok .none
+  | 5 => some fun i _ => if i % 2 == 0 then .ok (.tuple [fresh i, fresh (1000 + i)]) else .ok (.list [fresh i])
+  | 6 => some fun i _ => .ok (.dict [(.str "b", fresh i), (.str "a", .list [fresh (1000 + i), .none])])
+  | _ => Option.none
+
+def encArg : Arg → Sexp
+  | .obj x => encObj x
+  | .path p => l (.atom "p" :: p.map encKey)
+  | .acc a => l (.atom "a" :: a.map encAccEntry)
+
+def encLog (log : List (List Arg)) : Sexp := l (.atom "calls" :: log.map fun a => l (a.map encArg))
+
+def encMapOut (o : MapOut) : Sexp :=
+  match o.result with
+  | .ok r => encOk [encObj r, encLog o.log]
+  | .error e => l [.atom "err", .atom (errName e), encLog o.log]
+
+def decVariant : Sexp → Dec MapVariant
+  | .atom "plain" => .ok .plain
+  | .atom "path" => .ok .withPath
+  | .atom "acc" => .ok .withAccessor
+  | _ => .error "variant expected"
+
 def encLeaves (ls : List PyObj) : Sexp := l (.atom "leaves" :: ls.map encObj)
 def encPath (p : List Key) : Sexp := l (p.map encKey)
 def encPaths (ps : List (List Key)) : Sexp := l (.atom "paths" :: ps.map encPath)
@@ -265,6 +301,62 @@ def evalOp (st : DriverState) : Sexp → Res Sexp
       let ts ← Res.ofDec (decList decObj trees)
       let b ← Res.ofExcept (allLeaves cfg ts)
       pure (encOk [Sexp.bool b])
+  | .list (.atom "map" :: variant :: inplace :: cfg :: f :: tree :: rests) => do
+      let variant ← Res.ofDec (decVariant variant)
+      let inplace ← Res.ofDec (decBool inplace)
+      let cfg ← Res.ofDec (decCfg st cfg)
+      let f ← Res.ofDec (decNat f)
+      let t ← Res.ofDec (decObj tree)
+      let rests ← Res.ofDec (decList decObj rests)
+      match fnMenu f with
+      | Option.none => .bad "function menu"
+      | some fn => pure (encMapOut (treeMapGen cfg variant inplace fn t rests))
+  | .list (.atom "bmap" :: variant :: cfg :: f :: tree :: rests) => do
+      let variant ← Res.ofDec (decVariant variant)
+      let cfg ← Res.ofDec (decCfg st cfg)
+      let f ← Res.ofDec (decNat f)
+      let t ← Res.ofDec (decObj tree)
+      let rests ← Res.ofDec (decList decObj rests)
+      match fnMenu f with
+      | Option.none => .bad "function menu"
+      | some fn => pure (encMapOut (treeBroadcastMap cfg variant fn t rests))
+  | .list [.atom "transpose", cfg, outer, inner, tree] => do
+      let cfg ← Res.ofDec (decCfg st cfg)
+      let outer ← evalSpec st outer
+      let inner ← evalSpec st inner
+      let t ← Res.ofDec (decObj tree)
+      let r ← Res.ofExcept (treeTranspose cfg outer inner t)
+      pure (encOk [encObj r])
+  | .list (.atom "transpose_map" :: variant :: cfg :: f :: inner :: tree :: rests) => do
+      let variant ← Res.ofDec (decVariant variant)
+      let cfg ← Res.ofDec (decCfg st cfg)
+      let f ← Res.ofDec (decNat f)
+      let inner ← (match inner with
+        | .atom "-" => (pure Option.none : Res (Option Spec))
+        | s => do let sp ← evalSpec st s; pure (some sp))
+      let t ← Res.ofDec (decObj tree)
+      let rests ← Res.ofDec (decList decObj rests)
+      match fnMenu f with
+      | Option.none => .bad "function menu"
+      | some fn => pure (encMapOut (treeTransposeMap cfg variant fn t rests inner))
+  | .list [.atom "bprefix", cfg, a, b] => do
+      let cfg ← Res.ofDec (decCfg st cfg)
+      let a ← Res.ofDec (decObj a)
+      let b ← Res.ofDec (decObj b)
+      let r ← Res.ofExcept (treeBroadcastPrefix cfg a b)
+      let ls ← Res.ofExcept (broadcastPrefix cfg a b)
+      pure (encOk [encObj r, encLeaves ls])
+  | .list [.atom "bcommon", cfg, a, b] => do
+      let cfg ← Res.ofDec (decCfg st cfg)
+      let a ← Res.ofDec (decObj a)
+      let b ← Res.ofDec (decObj b)
+      let (ta, tb) ← Res.ofExcept (treeBroadcastCommon cfg a b)
+      pure (encOk [encObj ta, encObj tb])
+  | .list [.atom "replace_nones", cfg, tree] => do
+      let cfg ← Res.ofDec (decCfg st cfg)
+      let t ← Res.ofDec (decObj tree)
+      let r ← Res.ofExcept (treeReplaceNones cfg (.leaf 0 777777) t)
+      pure (encOk [encObj r])
   | .list [.atom "repr", s] => do
       let sp ← evalSpec st s
       let r ← Res.ofExcept (toString stdNames sp)
